@@ -636,6 +636,13 @@ func bankRules() {
 	}
 	for _, mod := range []string{"node", "sao", "order", "market", "did", "model"} {
 		p := "(" + repoMod + "/x/" + mod + "/types.AccountKeeper)."
+		extRules[p+"GetModuleAccount"] = func(cc *callCtx) ([]string, bool) {
+			cc.e.modAccts()[cc.val] = cc.arg(2)
+			return []string{"0"}, true
+		}
+		extRules["("+repoMod+"/x/"+mod+"/types.BankKeeper).GetAllBalances"] = func(cc *callCtx) ([]string, bool) {
+			return []string{cc.e.havoc(cc.resType(0), "allbal")}, true
+		}
 		extRules[p+"GetModuleAddress"] = func(cc *callCtx) ([]string, bool) {
 			cc.e.g().DeclFun("moduleAddr", []string{sortStr}, sortAddr)
 			return []string{fmt.Sprintf("(moduleAddr %s)", cc.arg(1))}, true
@@ -825,6 +832,30 @@ func miscRules() {
 		e.setState(h, "", fmt.Sprintf("(store %s %s %s)", e.getState(h), ref, cc.arg(0)))
 		return []string{ref}, true
 	}
+}
+
+var modAcctTab = map[*Enc]map[ssa.Value]string{}
+
+func (e *Enc) modAccts() map[ssa.Value]string {
+	m := modAcctTab[e]
+	if m == nil {
+		m = map[ssa.Value]string{}
+		modAcctTab[e] = m
+	}
+	return m
+}
+
+func init() {
+	getAddr := func(cc *callCtx) ([]string, bool) {
+		name, ok := cc.e.modAccts()[cc.args[0]]
+		if !ok {
+			return nil, false
+		}
+		cc.e.g().DeclFun("moduleAddr", []string{sortStr}, sortAddr)
+		return []string{fmt.Sprintf("(moduleAddr %s)", name)}, true
+	}
+	extRules["(github.com/cosmos/cosmos-sdk/x/auth/types.ModuleAccountI).GetAddress"] = getAddr
+	extRules["(github.com/cosmos/cosmos-sdk/x/auth/types.AccountI).GetAddress"] = getAddr
 }
 
 func readFile(p string) (string, error) {
